@@ -259,6 +259,7 @@ def sym_payload(H, m, pfx="pl.", variant=None):
     """Make the type-specific payload of `m` symbolic within its element types.  Returns a list of
     human-readable notes about parts that stay concrete (bounded parts)."""
     from rv.modules.analoggenerator import AnalogGenerator
+    from rv.modules.fmx import Fmx
     from rv.modules.generator import Generator
     from rv.modules.multictl import MultiCtl
     from rv.modules.spectravoice import SpectraVoice
@@ -299,6 +300,13 @@ def sym_payload(H, m, pfx="pl.", variant=None):
     if isinstance(m, VorbisPlayer):
         n = variant if isinstance(variant, int) else 5
         m.data = H.bytes(pfx + "data", n) if n else None
+    if isinstance(m, Fmx):
+        # every finite binary32 value in every one of the 256 frames (opaque bit patterns, see rvproof.floats.SymF32)
+        if variant == "inplace":
+            for i in range(m.custom_waveform.length):
+                m.custom_waveform.values[i] = H.f32(f"{pfx}custom_waveform[{i}]")
+        else:
+            m.custom_waveform.values = [H.f32(f"{pfx}custom_waveform[{i}]") for i in range(m.custom_waveform.length)]
     return notes
 
 
@@ -324,6 +332,20 @@ def check_payload(H, m, q, tag="payload"):
                                         [[getattr(x, f) for f in fs] for x in m.mappings.values]))
     if isinstance(m, VorbisPlayer):
         H.check(f"{tag}.data", H.eq(q.data if q.data else b"", m.data if m.data is not None else b""))
+    if type(m).__name__ == "Fmx":
+        a, b = list(m.custom_waveform.values), list(q.custom_waveform.values)
+        H.check(f"{tag}.custom_waveform.length", len(a) == len(b) == 256)
+        H.check(f"{tag}.custom_waveform.bit_exact", H.eq([f32_bits(x) for x in b], [f32_bits(x) for x in a]))
+
+
+def f32_bits(x):
+    """The binary32 pattern of a (symbolic or real) float as four byte items, little-endian."""
+    import struct
+
+    bits = getattr(x, "bits", None)
+    if bits is not None:
+        return list(bits)
+    return list(struct.pack("<f", x))
 
 
 def payload_variants(cls, tier):
@@ -333,7 +355,7 @@ def payload_variants(cls, tier):
         return [0, 15] if tier == "quick" else list(range(16))
     if name == "VorbisPlayer":
         return [0, 1, 5] if tier == "quick" else [0, 1, 2, 5, 64]
-    if name in ("Generator", "AnalogGenerator", "MultiSynth"):
+    if name in ("Generator", "AnalogGenerator", "MultiSynth", "Fmx"):
         # payloads with an elidable chunk: also edited in place (the list the constructor made)
         return [None, "inplace"]
     return [None]
